@@ -344,7 +344,15 @@ impl<'a, I: Interner> InternalWriterState<'a, I> {
             .iter(self.db().interner())
             .zip(self.binder_var_indices(binders))
             .map(move |(parameter, var)| match parameter {
-                VariableKind::Ty(_) => format!("{}", self.apply_mappings(var)),
+                VariableKind::Ty(TyVariableKind::General) => {
+                    format!("{}", self.apply_mappings(var))
+                }
+                VariableKind::Ty(TyVariableKind::Integer) => {
+                    format!("int {}", self.apply_mappings(var))
+                }
+                VariableKind::Ty(TyVariableKind::Float) => {
+                    format!("float {}", self.apply_mappings(var))
+                }
                 VariableKind::Lifetime => format!("'{}", self.apply_mappings(var)),
                 VariableKind::Const(_ty) => format!("const {}", self.apply_mappings(var)),
             })
